@@ -8,7 +8,7 @@ import (
 	"os"
 	"time"
 
-	"github.com/tidwall/resp"
+	"github.com/tidwall/redcon"
 	"github.com/tidwall/tile38/internal/log"
 )
 
@@ -95,46 +95,52 @@ func (s *Server) matchChecksums(conn *RESPConn, pos, size int64) (match bool, er
 	return csum == sum, nil
 }
 
-// getEndOfLastValuePositionInFile is a very slow operation because it reads the file
-// backwards on byte at a time. Eek. It seek+read, seek+read, etc.
+// getEndOfLastValuePositionInFile returns the end position of the last complete
+// command that ends at or before startPos. The file is read forward from the
+// start, like loadAOF does. Looking backwards for a '*' cannot tell an array
+// header from the same bytes inside a value.
 func getEndOfLastValuePositionInFile(fname string, startPos int64) (int64, error) {
-	pos := startPos
 	f, err := os.Open(fname)
 	if err != nil {
 		return 0, err
 	}
 	defer f.Close()
-	readByte := func() (byte, error) {
-		if pos <= 0 {
-			return 0, io.EOF
-		}
-		pos--
-		if _, err := f.Seek(pos, 0); err != nil {
-			return 0, err
-		}
-		b := make([]byte, 1)
-		if n, err := f.Read(b); err != nil {
-			return 0, err
-		} else if n != 1 {
-			return 0, errors.New("invalid read")
-		}
-		return b[0], nil
-	}
+	rd := io.LimitReader(f, startPos)
+	var pos int64
+	var buf []byte
+	var args [][]byte
+	var packet [0xFFFF]byte
 	for {
-		c, err := readByte()
+		n, err := rd.Read(packet[:])
+		if n > 0 {
+			data := append(buf, packet[:n]...)
+			for len(data) > 0 {
+				if data[0] == 0 {
+					// zeros between commands are ignored by loadAOF too
+					data = data[1:]
+					pos++
+					continue
+				}
+				var complete bool
+				var leftover []byte
+				var perr error
+				complete, args, _, leftover, perr = redcon.ReadNextCommand(data, args[:0])
+				if perr != nil {
+					return 0, perr
+				}
+				if !complete {
+					break
+				}
+				pos += int64(len(data) - len(leftover))
+				data = leftover
+			}
+			buf = append(buf[:0], data...)
+		}
+		if err == io.EOF {
+			return pos, nil
+		}
 		if err != nil {
 			return 0, err
-		}
-		if c == '*' {
-			if _, err := f.Seek(pos, 0); err != nil {
-				return 0, err
-			}
-			rd := resp.NewReader(f)
-			_, telnet, n, err := rd.ReadMultiBulk()
-			if err != nil || telnet {
-				continue // keep reading backwards
-			}
-			return pos + int64(n), nil
 		}
 	}
 }
